@@ -79,6 +79,20 @@ Theorem C09_reference_run_is_s_run :
     forallb sets_valid xs = true -> fold_left (spec_next lower) xs W = s_run lower W xs.
 Proof. exact spec_run_s_run. Qed.
 
+(** sort_fields(key=...) for the five key functions of [sortkey] (default, len, constant, a rank
+    table, reverse-lexicographic): what the reference prescribes -- and hence, by theorems 2 above,
+    what the model does -- is THE stable sort by key value: a permutation of the paragraph, in
+    non-decreasing key order, in which the fields with any given key value keep their relative
+    order (fields the key function ranks equally are not re-ordered). *)
+Theorem C09_sort_stable :
+  forall lower o sk (d : items),
+    let key := fun p : str * str => sort_key lower sk (fst p) in
+    let d' := snd (s_step1 lower d (OSort o sk)) in
+    Permutation.Permutation d' d
+    /\ Sorted.StronglySorted (fun x y => zs_leb (key x) (key y) = true) d'
+    /\ forall k, filter (fun y => zs_eqb (key y) k) d' = filter (fun y => zs_eqb (key y) k) d.
+Proof. exact sort_reference_stable. Qed.
+
 (** 3. failed_op_unchanged.  After any history, an operation that raises (KeyError on a missing
        key, ValueError on re-ordering relative to itself or on an invalid value, ...) leaves every
        paragraph of the world unchanged. *)
@@ -129,7 +143,7 @@ Example C09_nonvacuous :
   let one := [49]%N in let two := [50]%N in
   let s := SDict [(A, one); (b, two); (Cc, [120; 32; 121]%N)] in
   let xs := [OSet 0 a two; OSet 0 D [49; 10; 32; 50]%N; OSet 0 D [49; 10]%N; OFirst 0 B;
-             OBefore 0 D a; OAfter 0 Cc Cc; OLast 0 [90]%N; ODel 0 [99; 67]%N; OCopy 0; OSort 1;
+             OBefore 0 D a; OAfter 0 Cc Cc; OLast 0 [90]%N; ODel 0 [99; 67]%N; OCopy 0; OSort 1 KDefault;
              OReparse 1; OGet 2 [100]%N; OBefore 1 A b; ODump 0; OSet 7 a a] in
   start_ok s = true
   /\ hist_ok ascii_lower (s_start ascii_lower s) (xs ++ [OLast 0 [90]%N]) = true
@@ -148,7 +162,7 @@ Proof. vm_compute. repeat split. Qed.
 Example C09_wf_nonvacuous :
   let A := [65]%N in let b := [98]%N in let Cc := [67; 99]%N in
   let s := SDict [(A, [49]%N); (b, [50]%N); (Cc, [120]%N)] in
-  let xs := [OFirst 0 [66]%N; OCopy 0; OSort 1; OReparse 1; ODel 2 [97]%N; OAfter 0 A Cc] in
+  let xs := [OFirst 0 [66]%N; OCopy 0; OSort 1 KDefault; OReparse 1; ODel 2 [97]%N; OAfter 0 A Cc] in
   exists Cs, W_rep ascii_lower (run ascii_lower (snd (start_world ascii_lower s)) xs) Cs.
 Proof. cbv zeta. apply C09_dll_wf_preserved; vm_compute; reflexivity. Qed.
 
@@ -157,12 +171,13 @@ Example C09_nonvacuous_simple :
   let A := [65]%N in let a := [97]%N in let b := [98]%N in
   let text := [65; 58; 32; 49; 10; 98; 58; 10]%N in       (* "A: 1\nb:\n" *)
   let s := SParsed text [(A, [49]%N); (b, [])] in
-  let xs := [OSet 0 a [120; 32; 121]%N; OReparse 0; OFirst 1 b; OReparse 1; OSort 2; OCopy 2] in
+  let xs := [OSet 0 a [120; 32; 121]%N; OReparse 0; OFirst 1 b; OReparse 1; OSort 2 KLen; OCopy 2] in
   start_ok s = true /\ start_simple s = true /\ forallb op_simple xs = true
   /\ map (obj_items ascii_lower (run ascii_lower (snd (start_world ascii_lower s)) xs))
          (w_objs (run ascii_lower (snd (start_world ascii_lower s)) xs))
      = [Ok [(A, [120; 32; 121]%N); (b, [])]; Ok [(b, []); (A, [120; 32; 121]%N)];
-        Ok [(A, [120; 32; 121]%N); (b, [])]; Ok [(A, [120; 32; 121]%N); (b, [])]].
+        Ok [(b, []); (A, [120; 32; 121]%N)]; Ok [(b, []); (A, [120; 32; 121]%N)]].
+  (* sort_fields(key=len) on "b", "A": a tie, the order is kept *)
 Proof. vm_compute. repeat split. Qed.
 
 Print Assumptions C09_dll_wf_preserved.
@@ -171,6 +186,7 @@ Print Assumptions C09_wf_observable.
 Print Assumptions C09_dict_refines_assoc.
 Print Assumptions C09_run_refines.
 Print Assumptions C09_reference_run_is_s_run.
+Print Assumptions C09_sort_stable.
 Print Assumptions C09_failed_op_unchanged.
 Print Assumptions C09_agree_implies_holds.
 Print Assumptions C09_parse_dump_identity.
